@@ -644,6 +644,56 @@ func (g *gen) fieldsHistory() {
 	g.w.doRestart(g.tr, parseLine("restart mode=clean ev=test"))
 }
 
+// hooksHistory: every mutating operation of the webhook manager (register, update, remove — each with the fault
+// sweep) happens before a delivery check and before a restart; in between the other managers are exercised too.
+func (g *gen) hooksHistory() {
+	r, b := g.r, g.w.b
+	g.tr.Line("reset profile=M hooks=1 script=1", "")
+	g.setup("name=S.UpdateSettings v=3")
+	url := func(h int) string { return fmt.Sprintf("url=%s/h%d", g.w.sink.srv.URL, h) }
+	scopes := []string{"all", "alerts", "alerts/info,wallet", "test", "wallet", "alerts/error"}
+	deliver := func() {
+		g.w.doDeliver(g.tr, parseLine("deliver ev="+vhlib.Pick(r, "alerts/info", "wallet", "test", "alerts/error")))
+	}
+	register := func() {
+		b.nextH++
+		g.sweep(fmt.Sprintf("name=W.Register h=%d scopes=[%s] %s", b.nextH, scopes[r.Intn(len(scopes))], url(b.nextH)))
+	}
+	update := func() {
+		if len(b.hooks) > 0 {
+			b.nextH++
+			g.sweep(fmt.Sprintf("name=W.Update id=%d h=%d scopes=[%s] %s", b.hooks[r.Intn(len(b.hooks))], b.nextH, scopes[r.Intn(len(scopes))], url(b.nextH)))
+		}
+	}
+	remove := func() {
+		if len(b.hooks) > 0 {
+			g.sweep(fmt.Sprintf("name=W.Remove id=%d", b.hooks[r.Intn(len(b.hooks))]))
+		}
+	}
+	restart := func() {
+		g.w.doRestart(g.tr, parseLine(fmt.Sprintf("restart mode=%s ev=%s", vhlib.Pick(r, "clean", "clean", "abrupt"), g.eventScope())))
+	}
+	register()
+	register()
+	register()
+	deliver()
+	for round := 0; round < 3; round++ {
+		steps := []func(){update, remove, register}
+		for i := len(steps) - 1; i > 0; i-- {
+			j := r.Intn(i + 1)
+			steps[i], steps[j] = steps[j], steps[i]
+		}
+		for _, st := range steps {
+			st()
+			deliver()
+		}
+		g.sweep(g.settingsPatch(r.Intn(nSettingsFields), false))
+		g.sweep(g.pinnedPatch(r.Intn(nPinnedFields), false))
+		restart()
+		deliver()
+	}
+}
+
 // eventScope picks the scope of the test event: one that a registered hook listens to, if there is any.
 func (g *gen) eventScope() string {
 	hs, _ := g.w.main.st.Webhooks()
@@ -799,6 +849,10 @@ func replay(t *testing.T, tr *vhlib.Trace, ops []vhlib.ParsedLine, thorough bool
 			if w != nil {
 				w.doRestart(tr, op)
 			}
+		case "deliver":
+			if w != nil {
+				w.doDeliver(tr, op)
+			}
 		case "irestart":
 			if w != nil {
 				if lw == nil {
@@ -837,19 +891,21 @@ func TestEngine(t *testing.T) {
 	r := vhlib.NewRand(cfg.Seed)
 	only := cfg.Extra["only"] // restrict to one history kind (debugging)
 	for i := 0; i < cfg.N; i++ {
-		kinds := []string{"S", "M", "I", "Mh", "R", "S", "F", "V", "Md", "B"}
+		// twelve kinds: with n = 2 x shards every kind occurs twice in a quick run (consecutive shards start at
+		// consecutive offsets), in thorough every shard runs all of them
+		kinds := []string{"S", "M", "I", "Mh", "R", "S", "F", "V", "Md", "B", "H", "M"}
 		if cfg.Extra["c18"] == "1" {
 			// C18: histories with managers and restarts
-			kinds = []string{"M", "V", "V", "F", "Md", "I", "Mh", "F", "V", "F"}
+			kinds = []string{"M", "V", "V", "F", "Md", "I", "Mh", "F", "V", "F", "H", "H"}
 		}
-		kind := kinds[(int(cfg.Seed%10)+i)%10]
+		kind := kinds[(int(cfg.Seed%uint64(len(kinds)))+i)%len(kinds)]
 		if only != "" {
 			kind = only
 		}
 		func() {
 			profile := "S"
 			switch kind {
-			case "M", "Mh", "Md", "F":
+			case "M", "Mh", "Md", "F", "H":
 				profile = "M"
 			case "V":
 				profile = "V"
@@ -876,6 +932,8 @@ func TestEngine(t *testing.T) {
 				g.indexerHistory(4)
 			case "F":
 				g.fieldsHistory()
+			case "H":
+				g.hooksHistory()
 			}
 		}()
 	}
